@@ -445,7 +445,20 @@ StepSnap(mm0, e) ==
 \* non-leader period are re-armed by the follower rule, so their lateness is not judged any more
 StepStatus(mm, e) ==
     [mm EXCEPT !.status = e.status, !.t = e.t,
+               \* a request in flight while the node becomes the leader (again) may be decided as a leader
+               !.reqs = IF e.status = 1
+                        THEN [i \in DOMAIN mm.reqs |-> IF mm.reqs[i].st = "open" THEN [mm.reqs[i] EXCEPT !.ldr = TRUE] ELSE mm.reqs[i]]
+                        ELSE @,
                !.holds = [kk \in DOMAIN mm.holds |-> [j \in 1..Len(mm.holds[kk]) |-> [mm.holds[kk][j] EXCEPT !.hi = INF]]]]
+
+\* engine C: the request left its entry yield point (lock.mgr.got / unlock.mgr.got: after the key manager
+\* lookup, BEFORE the shard mutex is taken).  A role change holds every shard mutex, so the role recorded
+\* here (the status event is written under those mutexes) is the role the request's whole critical section
+\* runs under: from here on a request on a non-leader is a request "reaching a node that is not the leader".
+StepPass(mm, e) ==
+    IF e.id \in DOMAIN mm.reqs /\ mm.reqs[e.id].st = "open" /\ mm.status # 1
+    THEN [mm EXCEPT !.reqs[e.id].ldr = FALSE]
+    ELSE mm
 
 Step(mm, e) ==
     CASE e.e = "begin"  -> StepBegin(mm, e)
@@ -456,6 +469,7 @@ Step(mm, e) ==
       [] e.e = "tock"   -> StepTock(mm, e)
       [] e.e = "snap"   -> StepSnap(mm, e)
       [] e.e = "status" -> StepStatus(mm, e)
+      [] e.e = "pass"   -> StepPass(mm, e)
       [] OTHER          -> mm
 
 Init == l = 1 /\ m = M0
